@@ -54,6 +54,11 @@ class Ctx:
             rec["err"] = err if err == err and abs(err) != float("inf") else str(err)
         if detail is not None:
             rec["detail"] = detail
+        c = case if case is not None else self.case
+        if isinstance(c, dict) and isinstance(c.get("spec"), dict):
+            from .zoo import spec_classes
+
+            rec["classes"] = sorted(spec_classes(c["spec"]))
         k = findings.match(rec, self._known)
         rec["known"] = k
         fp = fingerprint(rec) + f"#{k}"
